@@ -84,6 +84,10 @@ Fixpoint span_ident (s : text) : text * text :=
 Fixpoint drop_line (s : text) : text :=
   match s with [] => [] | c :: r => if c =? c_nl then r else drop_line r end.
 
+(* for c in self.chars(): if c == stop: break  -- None: the input ended first *)
+Fixpoint drop_through (stop : N) (s : text) : option text :=
+  match s with [] => None | c :: r => if c =? stop then Some r else drop_through stop r end.
+
 Fixpoint lookup {A} (k : text) (t : list (text * A)) : option A :=
   match t with [] => None | (k', v) :: r => if text_eqb k k' then Some v else lookup k r end.
 
@@ -561,4 +565,15 @@ Section Reader.
 
   (* list(hy.read_many(text)) *)
   Definition read_many (s : text) : outcome := outcome_of (rd (read_fuel s) (MSeq None []) s).
+
+  (* list(hy.read_many(text, skip_shebang=True)), the way the importer, hy2py and `hy file` read source files:
+     HyReader.parse peeks len(shebang_mark) characters and, if they are the mark, consumes characters with chars()
+     through the first shebang_end -- PrematureEndOfInput if there is none; all of this outside try_parse_one_form *)
+  Definition read_many_file (s : text) : outcome :=
+    if starts_with shebang_mark s then
+      match drop_through shebang_end s with
+      | None => Premature
+      | Some r => outcome_of (rd (read_fuel r) (MSeq None []) r)
+      end
+    else read_many s.
 End Reader.
